@@ -8,7 +8,7 @@ VERIF = os.path.dirname(os.path.dirname(os.path.abspath(__file__)))
 SD = os.path.join(VERIF, 'seeded')
 conf = json.load(open(os.path.join(SD, 'confirm.json')))
 mx = json.load(open(os.path.join(SD, 'matrix.json')))
-PORTED = {'C04B', 'C11A', 'C11B', 'C14A', 'C14B', 'C15A', 'C15B', 'C17A', 'C18B', 'C19A', 'C17R', 'C17S'}
+PORTED = {'C04B', 'C11A', 'C11B', 'C14A', 'C14B', 'C15A', 'C15B', 'C17A', 'C18B', 'C19A', 'C17R', 'C17S', 'C17X', 'C17Y'}
 for name in sorted(os.listdir(SD)):
     d = os.path.join(SD, name)
     if not os.path.isdir(d):
